@@ -373,7 +373,7 @@ pub fn burst_case(kind: usize, reps: usize, threads: usize, seed: u64) -> Result
 pub fn burst_reps(tier: Tier, kind: usize) -> usize {
     match (tier, KINDS[kind].expensive) {
         (Tier::Quick, true) => 150,
-        (Tier::Quick, false) => 8_000,
+        (Tier::Quick, false) => 3_000,
         (_, true) => 1_500,
         (_, false) => 60_000,
     }
@@ -398,7 +398,7 @@ pub fn replay_burst(v: &Value) -> Result<(), String> {
     burst_case(v["burst_kind"].as_u64().unwrap_or(0) as usize % KINDS.len(), v["reps"].as_u64().unwrap_or(2000) as usize, v["threads"].as_u64().unwrap_or(16) as usize, v["seed"].as_u64().unwrap_or(0))
 }
 
-pub const BURST_RULE: &str = "16 barrier-released threads evaluate the operation on TWO alternating arguments in a tight loop (8000 / 150 iterations per thread quick, 60000 / 1500 thorough); every result must equal the single-threaded reference (a process-wide memo whose key and value are published separately, a shared scratch buffer)";
+pub const BURST_RULE: &str = "16 barrier-released threads evaluate the operation on TWO alternating arguments in a tight loop (3000 / 150 iterations per thread quick, 60000 / 1500 thorough); every result must equal the single-threaded reference (a process-wide memo whose key and value are published separately, a shared scratch buffer)";
 
 pub const RULE: &str = "one worker thread sends N distinct arguments through the operation (N = 2300 / 4400 quick, 9000 / 70000 thorough), then evaluates the first 24, the last 24 and every (N/40)-th argument again, forwards and backwards: same bits as the first time (a bounded memo, ring or pool that misbehaves once full, flushed or wrapped)";
 
